@@ -27,14 +27,14 @@ import vlib
 # ----------------------------------------------------------------------------
 KEYS = ["a", "b", "c", "x", "k", "name", "a b", "0", "<<", "*", "a*", "?", ""]
 SMALL_INTS = [0, 1, 2, 3, -1, -2, -3, 5, -5, 7, 10, -10, 100, -100]
-STRS = ['""', '"a"', '"b"', '"a b"', '"0"', '"1"', '"x*"', '"*"', '"a,b"', '"2001-01-01"', '"[1,2"', '"a: 1"', '"<a>1</a>"',
+STRS = ['"!!null"', '"!!seq"', '"x"', '""', '"a"', '"b"', '"a b"', '"0"', '"1"', '"x*"', '"*"', '"a,b"', '"2001-01-01"', '"[1,2"', '"a: 1"', '"<a>1</a>"',
         '"YQ=="', '"%zz"', '"(a"', '"(?P<n>a)"', '"\\\\"', '"\\n"', '"true"', '"null"', '"!!int"', '"!!str"', '"!!map"', '"!x"',
         '"flow"', '"double"', '"single"', '"literal"', '"folded"', '"tagged"', '"bogus"', '"g"', '"1e400"', '"0x1G"', '"9223372036854775808"']
 NUMS = ["0", "1", "2", "-1", "-2", "3", "5", "-5", "1.5", "-0.5", "1e3", "1e400", "0x10", "0xFF", "0", "7", "100", "-100",
         "9223372036854775807", "-9223372036854775808", "4294967296", "0.0", "-0"]
 
 # operators that take no argument (used as  e | op)
-NULLARY = ["length", "keys", "sort", "reverse", "unique", "flatten", "flatten(0)", "flatten(1)", "flatten(2)", "to_entries",
+NULLARY = ["((.x | select(false)), .)", "alias = \"x\"", "tag = \"!!null\"", ". - .", "eval(.a)", ".a = 1", ".b = .d", "length", "keys", "sort", "reverse", "unique", "flatten", "flatten(0)", "flatten(1)", "flatten(2)", "to_entries",
            "from_entries", "explode(.)", "not", "tag", "type", "kind", "style", "anchor", "alias", "key", "path", "parent",
            "parent(0)", "parent(2)", "parent(9)", "line", "column", "to_number", "to_string", "trim", "upcase", "downcase",
            "ascii_downcase", "to_json", "to_json(0)", "@json", "from_json", "to_yaml", "to_yaml(3)", "@yaml", "from_yaml",
@@ -298,7 +298,8 @@ def y_node(rng, depth, ind, anchors):
     return out
 
 
-FIXED_DOCS = ["", "\n", "null\n", "~\n", "[]\n", "{}\n", "[1,2]\n", "a: 1\n", "a: {b: [1, 2, {c: 3}]}\n", "- 1\n- [2, 3]\n- a: b\n",
+FIXED_DOCS = ["!!null [1]\n", "!!null [1,2,3]\n", "- !!map [1]\n", "!!map [1]\n", "a: &a [*a, *a]\n", "b: &x {c: 1}\nd: *x\n", "a: &a {<<: *a}\n",
+              "b: &x {c: {<<: *x}}\n", "a: eval(.a)\n", "!!null [\"<<\"]\n", "- &a [1]\n- <<: *a\n", "", "\n", "null\n", "~\n", "[]\n", "{}\n", "[1,2]\n", "a: 1\n", "a: {b: [1, 2, {c: 3}]}\n", "- 1\n- [2, 3]\n- a: b\n",
               "a: &x {b: 1}\nc: *x\nd:\n  <<: *x\n  e: 2\n", "a: &x [1,2]\nb:\n  <<: *x\n", "a: &x 1\nb:\n  <<: *x\n",
               "a: &x {b: 1}\nl:\n  <<: [*x, *x]\n", "--- 1\n--- 2\n", "---\n---\n", "# only a comment\n", "a: 1\n---\nb: 2\n...\n",
               "[!!int abc, 1]\n", "[0x10, 1.5]\n", "[!!int 1.5, 2]\n", "[1, !!float x]\n", "[[1,2],[3]]\n", "[{a: 1, b: 2}, {a: 3}]\n",
@@ -468,10 +469,10 @@ def c11_batch(reqs, timeout=1200):
         data = "".join(json.dumps(r) + "\n" for r in reqs[start:]).encode()
         try:
             p = subprocess.run([vlib.YQH], input=data, stdout=subprocess.PIPE, stderr=subprocess.PIPE, timeout=timeout)
-            lines = p.stdout.decode("utf-8", "replace").splitlines()
+            lines = [x.decode("utf-8", "replace") for x in p.stdout.split(b"\n") if x.strip()]
             err = p.stderr.decode("utf-8", "replace")
         except subprocess.TimeoutExpired as e:
-            lines = (e.stdout or b"").decode("utf-8", "replace").splitlines()
+            lines = [x.decode("utf-8", "replace") for x in (e.stdout or b"").split(b"\n") if x.strip()]
             err = "C11-TIMEOUT batch\nC11-STACK \n"
         n = 0
         for ln in lines:
@@ -518,7 +519,17 @@ def describe(req):
 # ----------------------------------------------------------------------------
 def load_sites():
     with open(SITES_FILE) as f:
-        return json.load(f)
+        sites = json.load(f)
+    for s in sites:
+        if "stdin_b64" in s:
+            s["stdin_bytes"] = base64.b64decode(s["stdin_b64"])
+    return sites
+
+
+def site_stdin(s):
+    if "stdin_bytes" in s:
+        return s["stdin_bytes"]
+    return s.get("stdin", "").encode("utf-8", "surrogatepass")
 
 
 def msg_class(msg):
@@ -567,7 +578,7 @@ class Known:
                     return key
             return None
         if c in ("timeout", "memory", "crash"):
-            funcs = resp.get("funcs") or []
+            funcs = (resp.get("funcs") or [])[:6]
             for fl, key in self.fatal_rules:
                 if any(f in funcs for f in fl):
                     return key
@@ -604,7 +615,7 @@ def inventory_tie(sites):
     problems = []
     cache = {}
     for s in sites:
-        f = s.get("file")
+        f = s.get("inv_file") or s.get("file")
         if not f or not s.get("code"):
             continue
         path = None
@@ -625,9 +636,10 @@ def inventory_tie(sites):
         if fn.endswith(".go") and not fn.endswith("_test.go"):
             src = open(os.path.join(d, fn), encoding="utf-8", errors="replace").read()
             n_panic += len(re.findall(r"(?<![\w.])panic\(", src))
-    n_inv = sum(s.get("count", 1) for s in sites if s.get("kind") == "explicit")
-    if n_panic != n_inv:
-        problems.append("pkg/yqlib has %d explicit panic( calls, the inventory lists %d" % (n_panic, n_inv))
+    inv = {(s["file"], s["line"]) for s in sites if s.get("kind") == "explicit" and "/" not in s["file"]
+           and (s.get("code") or s.get("desc") or "").startswith("panic(")}
+    if n_panic != len(inv):
+        problems.append("pkg/yqlib has %d explicit panic( calls, the inventory lists %d" % (n_panic, len(inv)))
     return problems
 
 
@@ -817,7 +829,7 @@ def search_cases(chk, thorough):
             e = rng.choice(FMT_EXPRS)
             reqs.append(mk_req(e, b, fmt, out, rng.random() < 0.2))
             streams.append("fmt-%s-%s" % (fmt, kind))
-        for n in ((200, 3000, 20000) if thorough else (200, 3000)):
+        for n in ((100, 800, 5000) if thorough else (100, 800)):
             b = deep_input(fmt, n)
             if b is not None:
                 reqs.append(mk_req(".", b, fmt, rng.choice(["yaml", "json"]), False))
@@ -878,26 +890,53 @@ def run(chk):
     stats, unknown = {}, []
 
     # ---- 1. recorded inputs of the reachable sites: harness and real binary
-    rec = [s for s in sites if s.get("status") == "reachable" and s.get("expr") is not None]
-    rreqs = [mk_req(s["expr"], s.get("stdin", ""), s.get("in", "yaml"), s.get("out", "yaml"), s.get("all", False),
+    rec = [s for s in sites if s.get("status") == "reachable" and s.get("expr") is not None and not s.get("cli_heavy")]
+    rreqs = [mk_req(s["expr"], site_stdin(s), s.get("in", "yaml"), s.get("out", "yaml"), s.get("all", False),
                     deadline_ms=s.get("deadline_ms", 3000), mem_mb=s.get("mem_mb", 600)) for s in rec]
-    rresp = c11_parallel(rreqs, shards=min(len(rreqs), 8) or 1)
-    real_checked = 0
+    rresp = c11_parallel(rreqs, shards=min(len(rreqs), 10) or 1)
     for s, req, r in zip(rec, rreqs, rresp):
-        chk.count(("recorded", s["key"], s["expr"], s.get("stdin", "")), nontrivial=True,
-                  sample={"recorded": s["key"], "expr": s["expr"], "input": s.get("stdin", "")[:80], "outcome": (r or {}).get("class")})
+        skey = s.get("key") or s.get("witness_of")
         c = (r or {}).get("class")
+        chk.count(("recorded", skey, s["expr"], s.get("stdin", ""), s.get("stdin_b64")), nontrivial=True,
+                  sample={"recorded": skey, "expr": s["expr"], "input": s.get("stdin", "")[:80], "outcome": c} if "key" in s else None)
         if c in ("ok", "err"):
             # the recorded input no longer fails: not an alarm (a fix removes a finding)
-            chk.extra.setdefault("recorded_no_longer_failing", []).append(s["key"])
+            chk.extra.setdefault("recorded_no_longer_failing", []).append(skey)
             continue
-        classify(chk, known, req, r, "recorded", stats, unknown)
-        if s.get("argv"):
-            cls, frame, head = real_binary(s["argv"], s.get("stdin", "").encode("utf-8", "surrogatepass"), timeout=s.get("real_timeout", 6))
-            real_checked += 1
-            chk.extra.setdefault("real_binary", {})[s["key"] + " :: " + " ".join(s["argv"])[:60]] = cls + (" " + frame if frame else "")
-            if cls in ("ok", "err"):
+        stats.setdefault("recorded", {}).setdefault(c, 0)
+        stats["recorded"][c] += 1
+        if known.match(r) is not None and chk.is_known(skey):
+            chk.known_finding(skey, {"input": describe(req), "observed": site_key(r)})
+        else:
+            classify(chk, known, req, r, "recorded", stats, unknown)
+    # the same inputs on the real binary (exit status 2 + goroutine dump, or no answer)
+    cli = [s for s in sites if s.get("status") == "reachable" and s.get("argv") and "key" in s and (thorough or not s.get("cli_heavy"))]
+
+    def real_one(s):
+        stdin = site_stdin(s)
+        if s.get("stdin_gen_python"):
+            stdin = eval(s["stdin_gen_python"], {"__builtins__": {}}, {})
+        if s.get("files"):
+            return None
+        return real_binary(s["argv"], stdin.encode("utf-8", "surrogatepass") if isinstance(stdin, str) else stdin,
+                           timeout=s.get("real_timeout", 5) if not s.get("cli_heavy") else 60, mem_mb=2000 if not s.get("cli_heavy") else 6000)
+    with ThreadPoolExecutor(6) as ex:
+        real = list(ex.map(real_one, cli))
+    real_checked = 0
+    for s, rr in zip(cli, real):
+        if rr is None:
+            continue
+        cls, frame, head = rr
+        real_checked += 1
+        chk.extra.setdefault("real_binary", {})[s["key"]] = cls + (" " + frame if frame else "")
+        if cls in ("ok", "err"):
+            if s.get("cli_only"):
+                chk.extra.setdefault("recorded_no_longer_failing", []).append(s["key"])
+            elif s["key"] not in chk.extra.get("recorded_no_longer_failing", []):
                 broken.append("recorded finding %s fails in the harness but the real binary answers %s for %r" % (s["key"], cls, s["argv"]))
+        elif s.get("cli_only"):
+            chk.count(("recorded-cli", s["key"]), nontrivial=True)
+            chk.known_finding(s["key"], {"argv": s["argv"], "observed": cls + " " + frame})
     chk.extra["real_binary_replays"] = real_checked
 
     # ---- 2. correspondence model <-> implementation
